@@ -62,7 +62,7 @@ def make_cases(ctx):
         plan = [(2, "tiny"), (0, "tiny"), (1, "tiny"), (2, "small"), (3, "small"), (4, "small"), (5, "tiny"), (0, "small"),
                 (1, "medium"), (3, "medium"), (2, "large"), (1, "huge"), (3, "repeat"), (0, "medium")]
     else:
-        plan = ([(e, s) for e in (2, 0, 1, 3, 4, 5) for s in ("tiny", "small", "small")] + [(e, "medium") for e in range(6)] * 2
+        plan = ([(e, s) for e in (2, 0, 1, 3, 4, 5) for s in ("tiny", "small", "small")] + [(e, "medium") for e in range(6)] + [(1, "medium"), (4, "medium")]
                 + [(0, "large"), (2, "large"), (5, "large"), (0, "huge"), (4, "huge"), (2, "repeat"), (5, "repeat")])
     for earlier, size in plan:
         names = rng.sample(sl.NAMES, earlier) if earlier <= len(sl.NAMES) else [f"r{i}" for i in range(earlier)]
@@ -169,7 +169,7 @@ def choose_points(ctx, events):
     elif len(inj) <= 60000:
         pi = stratified(*((30, 24, 10) if q else (100, 80, 30)))
     else:
-        pi = stratified(*((6, 2, 2) if q else (24, 16, 8)))
+        pi = stratified(*((6, 2, 2) if q else (16, 10, 6)))
     if len(inj) <= every_d:
         pd = set(allidx)
     elif len(inj) <= every_i:
@@ -177,7 +177,7 @@ def choose_points(ctx, events):
     elif len(inj) <= 60000:
         pd = stratified(*((30, 12, 8) if q else (100, 80, 30)))
     else:
-        pd = stratified(*((6, 2, 2) if q else (24, 16, 8)))
+        pd = stratified(*((6, 2, 2) if q else (16, 10, 6)))
     sel = pi | pd
     return (None if len(sel) == len(inj) else sel), sorted(pi), sorted(pd)
 
